@@ -12,7 +12,7 @@ def prove(ctx, modules, with_obligations=True, with_wrappers=False):
         wnames, winfo, _ = wrapgen.write(tabs)
         onames, omissing = wrapgen.write_obligations(tabs, winfo)
         for n, why in omissing:
-            ctx.oblige('IRGen.WrapObl.c01w_%s' % n, False, 'protocol listed in tools/fragment.json (wrapC01) has no traced wrapper any more: ' + why)
+            ctx.oblige('IRGen.WrapObl.cw_%s' % n, False, 'protocol listed in tools/fragment.json (wrapC01/wrapC05) has no traced wrapper any more: ' + why)
         ctx.extra['wrappers_traced'] = dict(encode=sum(1 for v in winfo.values() if v['encode'] == 'traced'),
                                             decode=sum(1 for v in winfo.values() if v['decode'] in ('traced', 'not overridden')),
                                             c01_obligations=len(onames))
@@ -36,8 +36,8 @@ def failed_protocols(ctx):
     """protocol names whose generated obligation failed on this run"""
     out = set()
     for name, ok, detail in ctx.obligations:
-        if not ok and 'IRGen.WrapObl.c01w_' in name:
-            out.add(name.split('c01w_', 1)[1])
+        if not ok and 'IRGen.WrapObl.c' in name:
+            out.add(name.split('w_', 1)[1])
         elif not ok and ('IRGen.Obl.wf_' in name or 'IRGen.Obl.wftol_' in name):
             tail = name.split('_', 1)[1] if False else name.split('.')[-1].split('_', 1)[1]
             out.add(tail.rsplit('_', 1)[0] if tail.rsplit('_', 1)[-1].isdigit() else tail)
